@@ -28,6 +28,7 @@ func checkC14(c *Ctx) {
 	c.Rule("C14/R8", "-filter stays in force when -table/-row/-col carry a fixed value list: the projection parser ANDs the list's membership tests with the caller's filter, keeping that filter among the operands (same rule as C06/R6), so a measurement the filter rejects cannot reach a cell")
 	c.Rule("C14/R15", "a measurement lands in the column of its file (same rule as C02/R8): only unlabelled inputs count towards 'same path given twice', labelled inputs keep the user's label")
 	c.Rule("C14/R17", "measurements land in the cell of their own key: two rows are one key only if every value agrees (same rule as C08/R17)")
+	c.Rule("C14/R19", "an exact unit's centre is the first of the most frequent values (same rule as C13/R10)")
 	c.Rule("C14/R18", "the warning that merged results vary names the keys they vary in: trimmed key values are read only through the reviewed accessors (same rule as C08/R10), so a value unset in the first residue still counts as differing")
 	c.Rule("C14/R16", "what a cell prints is the documented rendering of its summary and comparison (same rule as C13/R5)")
 	c.Rule("C14/R14", "every measurement's residue is recorded: in Builder.Add each append of a value to a cell is followed on every path of that step by an update of the cell's residue set")
@@ -54,6 +55,7 @@ func checkC14(c *Ctx) {
 	c.Under("C13/R5", "C14/R16", func() { c13Render(c, p) })
 	c.Under("C08/R17", "C14/R17", func() { c08EqualRowCompares(c, p) })
 	c.Under("C08/R10", "C14/R18", func() { c08ValueAccess(c, p) })
+	c13FirstModeWins(c, p, "C14/R19")
 	// the baseline is the first column in the columns' order, and for first-observation fields that order is the
 	// recorded ranks: same rule as C09/R1 + R4
 	if fm := p.Method("benchproc", "Projection", "FlattenedFields"); fm != nil {
